@@ -3,16 +3,17 @@
 set -u
 WT=$1; OUT=$2
 LOC=$(python3 -c "import json;print(json.load(open('$OUT/meta.json'))['demo_location'])")
+FEAT=$(python3 -c "import json;f=json.load(open('$OUT/meta.json')).get('features','');print(('--features '+f) if f else '')")
 PKG=$(echo $LOC | cut -d/ -f1); [ "$PKG" = "ssz" ] && CR=ethereum_ssz || CR=ethereum_ssz_derive
 cd $WT || exit 2
-git checkout -q -- . ; git apply $OUT/patch.diff || { echo "PATCH-DOES-NOT-APPLY"; exit 2; }
+git checkout -q -- . ; rm -f $WT/$LOC; git apply $OUT/patch.diff || { echo "PATCH-DOES-NOT-APPLY"; exit 2; }
 export CARGO_NET_OFFLINE=true
 SUITE=$(cargo test --workspace --offline 2>&1 | grep "test result" | grep -vc "ok\. .* 0 failed")
 echo "suite_with_patch_failing_groups=$SUITE"
 cp $OUT/demo.rs $WT/$LOC
-cargo test -p $CR --test demo --offline >/tmp/confirm_$$.log 2>&1; W=$?
+cargo test -p $CR --test demo --offline $FEAT >/tmp/confirm_$$.log 2>&1; W=$?
 git apply -R $OUT/patch.diff
-cargo test -p $CR --test demo --offline >/tmp/confirm2_$$.log 2>&1; WO=$?
+cargo test -p $CR --test demo --offline $FEAT >/tmp/confirm2_$$.log 2>&1; WO=$?
 git apply $OUT/patch.diff
 rm -f $WT/$LOC
 echo "demo_with_patch_rc=$W demo_without_patch_rc=$WO"
